@@ -32,6 +32,8 @@ deriving Inhabited
 
 structure St where
   gzip : Bool := false
+  /-- oracle-only scenario (request sent before the server's SETTINGS are seen): no trace lines. -/
+  early : Bool := false
   reqs : List Req := []
   resps : List RespSpec := []
   c : DirSt := {}
@@ -234,12 +236,14 @@ def completed (d : DirSt) (sid : Nat) : Option StreamSt :=
   | some e => if e.2.phase == .done then some e.2 else none
   | none => none
 
+def started (d : DirSt) (sid : Nat) : Bool := d.streams.any (fun e => e.1 == sid)
+
 def c14Step (s : St) (line : String) : St × String :=
   match tokens line with
   | "cfg" :: rest =>
-    match (kvOf rest "gz") >>= parseBool with
-    | some gz => ({ gzip := gz }, "ok")
-    | none => (s, "bad-op")
+    match (kvOf rest "gz") >>= parseBool, (kvOf rest "early") >>= parseBool with
+    | some gz, some early => ({ gzip := gz, early := early }, "ok")
+    | _, _ => (s, "bad-op")
   | "req" :: rest =>
     match parseReq rest s.gzip, (kvOf rest "i") >>= parseNat with
     | some r, some i => if i == s.reqs.length then ({ s with reqs := s.reqs ++ [r] }, "ok") else (s, "bad-op")
@@ -260,7 +264,7 @@ def c14Step (s : St) (line : String) : St × String :=
     | some i =>
       match completed s.c (2 * i + 1) with
       | some st => (s, showHReq (serverView st.msg st.hdrEnd))
-      | none => (s, "none")
+      | none => (s, if started s.c (2 * i + 1) then "incomplete" else "none")
     | none => (s, "bad-op")
   | ["cres", i] =>
     match parseNat i with
@@ -273,7 +277,11 @@ def c14Step (s : St) (line : String) : St × String :=
         (s, showHRes (clientView st.msg st.hdrEnd) wk)
       | _, _ => (s, "none")
     | none => (s, "bad-op")
-  | ["end"] => (s, "ok")
+  | ["end"] =>
+    -- a request whose stream the Transport never ends (see `Req.neverEnds`) is a known defect of
+    -- the code as it is: the exchange cannot complete
+    if !s.early && s.reqs.any Req.neverEnds then (s, "finding nil-body-with-trailers-never-ends")
+    else (s, "ok")
   | _ => (s, "bad-op")
 
 end NetVerif.Driver.C14
